@@ -111,7 +111,9 @@ def run(ctx):
     for f in split:
         hay, needle = f.params[0]["name"], f.params[1]["name"]
         sites = find_sites(f)
-        ctx.check(len(sites) == 1 and sites[0][4] == needle and fmt(sites[0][3].get("this")) == hay, "R17.2", f, "split-one-search", "split searches %s" % [(fmt(s[3])) for s in sites], f)
+        # one search expression (it may be written twice: as the initialiser and as the step of a for loop)
+        distinct = sorted({fmt(s0[3]) for s0 in sites})
+        ctx.check(len(distinct) == 1 and sites[0][4] == needle and fmt(sites[0][3].get("this")) == hay, "R17.2", f, "split-one-search", "split searches %s" % distinct, f)
         if len(sites) != 1:
             continue
         bid, i, e, n, _, startv = sites[0]
